@@ -927,7 +927,7 @@ def c12_oracle(c, impl_line):
 
 # ------------------------------------------------------------------ C05
 
-LIST_DIRS = ['/a/b', '/a/b/', 'rel', './rel', 'x/../rel', '', '/a/./b', '/c', 'a//b', '/']
+LIST_DIRS = ['/a/b', '/a/b/', 'rel', './rel', 'x/../rel', '', '/a/./b', '/c', 'a//b', '/', 'd1.x', '/shots.v1.final', 'x.5.d/y']
 LIST_BASES = ['foo.', 'foo_', 'bar.', 'a', 'img-', 'v2_', 's', 'x,', 'shot_010_', 'foo', 'foo.bar.', 'y', 'ab-', '']
 LIST_EXTS = ['.exr', '.jpg', '.tar.gz', '', '.1.ext', '.a.jpg', '.tif', '.e7']
 SINGLES = ['readme.txt', 'noext', 'file.with.dots.exr', 'a.b.c', 'Makefile', 'x.tar.gz', 'frame_.exr', '-', '_', 'v.', 'abc.def-ghi']
